@@ -141,11 +141,11 @@ def ctorOfSexp : Sexp → Option (Except OpErr Op)
     some (Op.mkCall (← polyOfSexp p) (← optOf sigOfSexp s) (← optOf argsOfSexp a))
   | .list [.atom "mkloadfunc", p, s, a] => do
     some (Op.mkLoadFunc (← polyOfSexp p) (← optOf sigOfSexp s) (← optOf argsOfSexp a))
-  | .list [.atom "some", r] => do some (.ok (Op.some (← rowOfSexp r)))
-  | .list [.atom "left", l, r] => do some (.ok (Op.left (← rowOfSexp l) (← rowOfSexp r)))
-  | .list [.atom "right", l, r] => do some (.ok (Op.right (← rowOfSexp l) (← rowOfSexp r)))
-  | .list [.atom "continue", l, r] => do some (.ok (Op.continue_ (← rowOfSexp l) (← rowOfSexp r)))
-  | .list [.atom "break", l, r] => do some (.ok (Op.break_ (← rowOfSexp l) (← rowOfSexp r)))
+  | .list [.atom "some", r] => do some (.ok (Op.tagSome (← rowOfSexp r)))
+  | .list [.atom "left", l, r] => do some (.ok (Op.tagLeft (← rowOfSexp l) (← rowOfSexp r)))
+  | .list [.atom "right", l, r] => do some (.ok (Op.tagRight (← rowOfSexp l) (← rowOfSexp r)))
+  | .list [.atom "continue", l, r] => do some (.ok (Op.tagContinue (← rowOfSexp l) (← rowOfSexp r)))
+  | .list [.atom "break", l, r] => do some (.ok (Op.tagBreak (← rowOfSexp l) (← rowOfSexp r)))
   | s => (opOfSexp s).map .ok
 
 def opSexp : Op → Sexp
